@@ -13,6 +13,7 @@ from buidl.timelock import (
     Locktime,
     Sequence,
     MAX_SEQUENCE,
+    SEQUENCE_DISABLE_RELATIVE_FLAG,
 )
 
 
@@ -877,12 +878,15 @@ def op_checklocktimeverify(stack, tx_obj, input_index):
 
 def op_checksequenceverify(stack, tx_obj, input_index):
     sequence = tx_obj.tx_ins[input_index].sequence
-    if not sequence.is_relative():
-        return False
     if len(stack) < 1:
         return False
     element = decode_num(stack[-1])
     if element < 0:
+        return False
+    # an operand with the disable flag set makes the op code a NOP (BIP112)
+    if element & SEQUENCE_DISABLE_RELATIVE_FLAG:
+        return True
+    if not sequence.is_relative():
         return False
     if tx_obj.version < 2:
         return False
